@@ -51,6 +51,7 @@ type State struct {
 	ghost  map[string]Term // ghost registers (call logs, defer flags, user ghost variables)
 	held   map[string]bool // monitors currently held (by monitor name)
 	vol    map[string]bool // box references shared with forked goroutines (loads are nondeterministic)
+	locks  map[string]*lockHold // lock-style monitors held: owner object and the state at Lock
 }
 
 func (s *State) Clone() *State {
@@ -70,6 +71,12 @@ func (s *State) Clone() *State {
 	}
 	for k, v := range s.vol {
 		n.vol[k] = v
+	}
+	if s.locks != nil {
+		n.locks = make(map[string]*lockHold, len(s.locks))
+		for k, v := range s.locks {
+			n.locks[k] = v
+		}
 	}
 	return n
 }
@@ -117,6 +124,20 @@ func valueFact(t types.Type, v string, top string) string {
 // baseFacts states, for a freshly introduced version of a component, that every value stored in it satisfies the
 // representation invariant of its Go type (references point to objects that already exist).
 func (h *Heap) baseFacts(name string, arr Term, top Term) {
+	if strings.HasPrefix(name, "MapDom.") {
+		// the nil map has no keys (a store into it panics, so no version of the component gives it any)
+		srt := string(arr.Sort)
+		if strings.HasPrefix(srt, "(Array Int (Array ") {
+			parts := splitSortArgs(srt[len("(Array Int ") : len(srt)-1])
+			if len(parts) == 2 {
+				h.sc.n++
+				k := fmt.Sprintf("hk?%d", h.sc.n)
+				sel := fmt.Sprintf("(select (select %s 0) %s)", arr.S, k)
+				h.sc.Assume(T(fmt.Sprintf("(forall ((%s %s)) (! (not %s) :pattern (%s)))", k, parts[0], sel, sel), SBool))
+			}
+		}
+		return
+	}
 	t, ok := h.etype[name]
 	if !ok {
 		return
@@ -387,6 +408,17 @@ func (h *Heap) Merge(sc *Script, conds []Term, ins []*State) *State {
 	for _, in := range ins[1:] {
 		if fmt.Sprint(sortedBoolKeys(in.held)) != fmt.Sprint(sortedBoolKeys(ins[0].held)) {
 			out.held["$inconsistent"] = true
+		}
+		for k, v := range in.locks {
+			if w := ins[0].locks[k]; w != nil && w != v {
+				out.held["$inconsistent"] = true
+			}
+		}
+	}
+	if ins[0].locks != nil {
+		out.locks = map[string]*lockHold{}
+		for k, v := range ins[0].locks {
+			out.locks[k] = v
 		}
 	}
 	for _, in := range ins {
